@@ -125,7 +125,7 @@ func Access(x any, field, site string, write bool) {
 		if th := s.byGoid[g]; th != nil {
 			name = th.name
 			if strings.HasPrefix(th.name, "go@") || strings.HasPrefix(th.name, "timer@") {
-				name = fmt.Sprintf("%s#%d", th.name, th.id)
+				name = th.name + "#" + th.path
 			}
 		}
 		s.mu.Unlock()
